@@ -113,3 +113,85 @@ Definition write_row_group_path (same_config src_encrypted chunk_transparent fit
 
 Definition wrg_kind (p : wrg_path) : consumer_kind :=
   match p with WVerbatim => Verbatim | _ => Decoding end.
+
+(** * Consumers of several sources: merges (merge.go)
+
+    MergeRowReaders / MergeRowGroups(...).Rows() keep a buffer of rows per
+    input and refill it from the reader of that input when it runs empty
+    (mergedRowReader2.ReadRows for two inputs, the loser tree of
+    mergedRowReader for three and more).  Which input is refilled next is
+    decided by the keys: here it is an arbitrary schedule, a list of input
+    numbers.  A refill that fails ends the merge with the error; a refill
+    that meets the end of the input leaves the merge to the other inputs.
+    [lenient = true] is the variant that takes a failed refill for the end of
+    the input (what a merge must not do).  Inputs are numbered from 0;
+    the answer lists are those of [source]. *)
+Definition inputs := nat -> list answer.
+
+Definition pop (ins : inputs) (i : nat) : inputs :=
+  fun j => if Nat.eqb j i then tl (ins j) else ins j.
+
+Fixpoint merge_run (lenient : bool) (sched : list nat) (ins : inputs) (n : nat) (alt : bool)
+  : outcome * inputs :=
+  match sched with
+  | [] => (Done n alt, ins)
+  | i :: rest =>
+      match ins i with
+      | AItem d :: _ =>
+          merge_run lenient rest (pop ins i) (S n)
+                    (alt || match d with Altered => true | Clean => false end)
+      | AFail :: _ => if lenient then merge_run lenient rest ins n alt else (Reported n alt, ins)
+      | _ => merge_run lenient rest ins n alt
+      end
+  end.
+
+(* the answer that stops a reader of the list: the first one that is not an item *)
+Fixpoint first_stop (l : list answer) : answer :=
+  match l with
+  | AItem _ :: r => first_stop r
+  | a :: _ => a
+  | [] => AEnd
+  end.
+
+(* the input has nothing more to give *)
+Definition at_end (l : list answer) : bool :=
+  match l with
+  | AItem _ :: _ | AFail :: _ => false
+  | _ => true
+  end.
+
+(** * Readers that deliver rows in windows (variant_column_reader.go)
+
+    VariantReader.Next(n) makes every leaf column of the variant group read a
+    window of n rows (variantLeafReader.readWindow).  A leaf reader learns
+    that the last row of the window is complete from the slot that FOLLOWS
+    it: when the window ends where a page ends it loads the next page (a
+    peek) although every row it is about to return lies before that page.
+    The items of the source are rows; the failed load of the altered page is
+    the [AFail] in front of the rows behind it.  [rem] rows are still due in
+    window number [i]; window number j has [S (sizes j)] rows.  [keep = true]:
+    the failure met by the peek is returned by that call (and kept:
+    VariantReader.err); [keep = false] is the variant that returns the
+    complete window and drops the failure - the page reader has moved on, the
+    next window starts with the rows behind the page. *)
+Fixpoint read_windows (keep : bool) (sizes : nat -> nat) (src : list answer) (i rem n : nat) (alt : bool)
+  : outcome :=
+  match src with
+  | [] => Done n alt
+  | AEnd :: _ => Done n alt
+  | AFail :: r =>
+      match rem with
+      | O => if keep then Reported n alt
+             else read_windows keep sizes r (S i) (S (sizes (S i))) n alt
+      | S _ => Reported n alt
+      end
+  | AItem d :: r =>
+      let alt' := alt || match d with Altered => true | Clean => false end in
+      match rem with
+      | O => read_windows keep sizes r (S i) (sizes (S i)) (S n) alt'
+      | S k => read_windows keep sizes r i k (S n) alt'
+      end
+  end.
+
+Definition read_in_windows (keep : bool) (sizes : nat -> nat) (src : list answer) : outcome :=
+  read_windows keep sizes src 0 (S (sizes 0%nat)) 0 false.
